@@ -15,6 +15,7 @@ from vf.vloop import run_virtual, HangDetected
 
 ID = "C11"
 LEVEL = "fault_enumeration"
+BACKENDS = ["pydantic", "fallback"]   # every case is executed under both validation backends
 LOGLEVELS = ["default", "debug"]   # every case also runs with the root logger at DEBUG (as --verbose does)
 SHARDS = {"quick": 4, "thorough": 16}
 BUDGET_S = {"quick": 100.0, "thorough": 900.0}
